@@ -1914,7 +1914,11 @@ func PeekByte(vm *VM, streamOrAlias, inByte Term, k Cont, env *Env) *Promise {
 	}
 
 	b, err := s.ReadByte()
-	_ = s.UnreadByte() // Before the continuation reads from the stream.
+	if err == nil {
+		// Before the continuation reads from the stream. Nothing was read at the end of the stream, and unreading
+		// there would put the byte before it back.
+		_ = s.UnreadByte()
+	}
 	switch err {
 	case nil:
 		return Unify(vm, inByte, Integer(b), k, env)
